@@ -29,7 +29,11 @@ StrClasses == {"plain", "markup", "control", "nonascii", "empty"}
 TimeoutErrors == {"zero_timeout", "tiny_read_timeout", "tiny_write_timeout", "tiny_connect_timeout", "negative_timeout", "text_timeout"}
 Errors == {"unknown_game", "unresolvable_host", "unreachable_server", "bad_port", "bad_format", "bad_retries", "missing_ip"} \cup TimeoutErrors
 
-Good == [kind : {"good"}, fam : Families, mode : Modes, fmt : Formats, str : StrClasses]
+\* size: "large" = a reply with more than a hundred players (documents of tens of kilobytes: output that is produced in
+\* pieces must still be one well-formed document); served for the text protocol where such replies are one datagram
+Sizes == {"small", "large"}
+Good == {g \in [kind : {"good"}, fam : Families, mode : Modes, fmt : Formats, str : StrClasses, size : Sizes] :
+           g.size = "large" => g.fam = "quake3"}
 Bad == [kind : {"bad"}, err : Errors, fmt : {"json", "xml"}]
 
 Init == c \in Good \cup Bad /\ stage = "args" /\ exit = 0
